@@ -193,3 +193,16 @@ Check C11_fail_fast_order_refuted :
   Permutation b_items_dir (rev b_items_dir) /\
   fs_get (fst (run_batch N b_xform true 0 b_items_dir b_fs_bad)) (b_out b_a) <>
   fs_get (fst (run_batch N b_xform true 0 (rev b_items_dir) b_fs_bad)) (b_out b_a).
+
+Theorem C11_instance_order_irrelevant :
+  forall items' f,
+    Permutation b_items_dir items' ->
+    forall p, fs_get (fst (run_batch N b_xform false 0 b_items_dir f)) p =
+              fs_get (fst (run_batch N b_xform false 0 items' f)) p.
+Proof. exact b_dir_order_irrelevant. Qed.
+Print Assumptions C11_instance_order_irrelevant.
+Check C11_instance_order_irrelevant :
+  forall items' f,
+    Permutation b_items_dir items' ->
+    forall p, fs_get (fst (run_batch N b_xform false 0 b_items_dir f)) p =
+              fs_get (fst (run_batch N b_xform false 0 items' f)) p.
